@@ -519,12 +519,28 @@ func genPlan(r *RNG, nBlocks int, addrs []sdk.AccAddress) ([][]genOp, [][]genTx,
 						}
 					}
 					navAmt := int64(1 + r.Intn(100000))
+					// one scope in five is an "old" one: its stored bytes still carry a value owner (scopes written
+					// before the value owner moved into the bank module were never rewritten; readScopeBz ignores
+					// the field) and its token has since moved to another account
+					legacy, newVO := r.Chance(20), pick()
+					if legacy {
+						desc = append(desc, "scope-legacy-bytes")
+					}
 					ops = append(ops, func(c *genChain, ctx sdk.Context) error {
-						if err := c.a.MetadataKeeper.SetScope(ctx, metadatatypes.Scope{ScopeId: scopeID, SpecificationId: specID,
+						sc := metadatatypes.Scope{ScopeId: scopeID, SpecificationId: specID,
 							Owners:            []metadatatypes.Party{{Address: owner.String(), Role: metadatatypes.PartyType_PARTY_TYPE_OWNER}},
 							DataAccess:        []string{vo.String()},
-							ValueOwnerAddress: vo.String()}); err != nil {
+							ValueOwnerAddress: vo.String()}
+						if err := c.a.MetadataKeeper.SetScope(ctx, sc); err != nil {
 							return err
+						}
+						if legacy {
+							ctx.KVStore(c.a.GetKey("metadata")).Set(scopeID.Bytes(), c.a.AppCodec().MustMarshal(&sc))
+							if !newVO.Equals(vo) {
+								if err := c.a.BankKeeper.SendCoins(ctx, vo, newVO, scopeID.Coins()); err != nil {
+									return err
+								}
+							}
 						}
 						if navDenom != "" {
 							return c.a.MetadataKeeper.AddSetNetAssetValues(ctx, scopeID,
@@ -882,6 +898,20 @@ func genRawStores(c *genChain) map[string]string {
 				// the global account-number counter: numbers consumed by accounts that no longer exist
 				// (a destroyed marker's account) are not re-consumed after an import
 				continue
+			}
+			if m == "metadata" && len(it.Key()) == 17 && it.Key()[0] == 0x00 {
+				// a scope: the value_owner_address field of the STORED bytes is dead data (readScopeBz
+				// blanks it; the owner is whoever holds the scope's token) and is not exported
+				var sc metadatatypes.Scope
+				if c.a.AppCodec().Unmarshal(it.Value(), &sc) == nil {
+					sc.ValueOwnerAddress = ""
+					h.Write(it.Key())
+					h.Write([]byte{0})
+					h.Write(c.a.AppCodec().MustMarshal(&sc))
+					h.Write([]byte{1})
+					n++
+					continue
+				}
 			}
 			if m == "attribute" && len(it.Key()) > 9 && it.Key()[0] == 0x04 {
 				// expiration-queue entry: count only LIVE entries (the attribute exists and this is the
